@@ -1,26 +1,54 @@
 #!/bin/bash
-# usage: tools_seeded.sh <prop id> <k> [check ids...]   -- confirm a seeded change and run the checks against it
-ID=$1; K=$2; shift 2; CHECKS=${@:-$ID}
-D=/tmp/seed_out/$ID/m$K; WT=/tmp/seed/$ID
+# usage: tools_seeded.sh <name e.g. C02_m1> [--confirm] [check ids...]
+#   --confirm : re-confirm the change in a scratch worktree (demo passes on the clean tree, fails with the patch, 37 baseline tests pass)
+#   then: apply the patch to /repo, run the given checks (default: the property of the name), revert /repo, write seeded/<name>/detection.json
+NAME=$1; shift
+CONFIRM=0; if [ "$1" == "--confirm" ]; then CONFIRM=1; shift; fi
+ID=${NAME%%_*}; CHECKS=${@:-$ID}
+D=/verif/seeded/$NAME
 [ -f $D/patch.diff ] || { echo "no patch $D"; exit 2; }
-git -C $WT checkout -q -- . ; git -C $WT clean -fdq
-echo "== $ID m$K: $(python3 -c "import json;print(json.load(open('$D/meta.json')).get('title',''))" 2>/dev/null)"
-( cd $D && PYTHONPATH=$WT/src timeout 180 /venv/bin/python demo.py > /tmp/demo_clean.log 2>&1; echo "demo clean exit=$?" )
-git -C $WT apply $D/patch.diff || { echo "patch does not apply"; exit 2; }
-( cd $WT && PYTHONPATH=$WT/src /venv/bin/python -m pytest -q -p no:cacheprovider --timeout=900 -rA 2>&1 | grep PASSED | sed 's/PASSED //' | sort > /tmp/passed_seed.txt )
-python3 - <<'PY'
+echo "== $NAME: $(python3 -c "import json;print(json.load(open('$D/meta.json')).get('title',''))" 2>/dev/null)"
+if [ $CONFIRM == 1 ]; then
+  WT=$(mktemp -d /tmp/seedwt.XXXX); rmdir $WT
+  git -C /repo worktree add -q --detach $WT HEAD || exit 2
+  ( cd $D && PYTHONPATH=$WT/src timeout 300 /venv/bin/python demo.py > /tmp/demo_clean.log 2>&1; echo "demo clean exit=$?" )
+  git -C $WT apply $D/patch.diff || { echo "patch does not apply"; git -C /repo worktree remove --force $WT; exit 2; }
+  ( cd $WT && PYTHONPATH=$WT/src /venv/bin/python -m pytest -q -p no:cacheprovider --timeout=900 -rA 2>&1 | grep PASSED | sed 's/PASSED //' | sort > /tmp/passed_seed.txt )
+  python3 - <<'PY'
 import json
 b=json.load(open('/root/.vp/BASELINE.json'))
 passed=set(l.strip().replace('/','.').replace('.py::','::') for l in open('/tmp/passed_seed.txt'))
 missing=[t for t in b['stable_pass'] if t not in passed]
 print("baseline tests with patch: %d/37 pass%s" % (37-len(missing), (" MISSING "+str(missing)) if missing else ""))
 PY
-( cd $D && PYTHONPATH=$WT/src timeout 180 /venv/bin/python demo.py > /tmp/demo_patched.log 2>&1; echo "demo patched exit=$?" )
-git -C $WT checkout -q -- . ; git -C $WT clean -fdq
-# now the checks on /repo
+  ( cd $D && PYTHONPATH=$WT/src timeout 300 /venv/bin/python demo.py > /tmp/demo_patched.log 2>&1; echo "demo patched exit=$?" )
+  git -C /repo worktree remove --force $WT
+fi
+[ -z "$(git -C /repo status --short)" ] || { echo "/repo working tree is not clean"; exit 2; }
 git -C /repo apply $D/patch.diff || { echo "patch does not apply to /repo"; exit 2; }
+RES=""
 for C in $CHECKS; do
-  ( cd /verif && timeout 1500 ./check $C > /tmp/seedchk_${ID}_m${K}_$C.log 2>&1; echo "check $C exit=$? : $(grep -c VIOLATION /tmp/seedchk_${ID}_m${K}_$C.log) violation line(s); $(grep -E 'failed:' /tmp/seedchk_${ID}_m${K}_$C.log | head -2 | cut -c1-160 | tr '\n' '|')" )
+  L=/tmp/seedchk_${NAME}_$C.log
+  ( cd /verif && timeout 1800 ./check $C > $L 2>&1 ); RC=$?
+  echo "check $C exit=$RC : $(grep -c '^VIOLATION' $L) violation line(s); $(grep -E 'failed:' $L | head -3 | cut -c1-160 | tr '\n' '|')"
+  RES="$RES $C:$RC:$L"
 done
-git -C /repo checkout -q -- . 
+git -C /repo checkout -q -- .
 git -C /repo status --short | head -3
+python3 - $D $RES <<'PY'
+import json,sys,re,os
+d=sys.argv[1]; out={}
+p=os.path.join(d,'detection.json')
+if os.path.exists(p): out=json.load(open(p))
+for item in sys.argv[2:]:
+    c,rc,log=item.split(':',2)
+    txt=open(log).read()
+    failed=[l.strip()[len('failed: '):] for l in txt.splitlines() if l.strip().startswith('failed:')]
+    ded=[f for f in failed if '::' in f]
+    rt=[f for f in failed if '::' not in f]
+    summ=[l for l in txt.splitlines() if 'tier=' in l and 'obligations discharged' in l]
+    out[c]={"exit":int(rc),"violation_lines":len([l for l in txt.splitlines() if l.startswith('VIOLATION')]),
+            "no_failing_input_found_lines":len([l for l in txt.splitlines() if l.startswith('VIOLATION') and l.rstrip().endswith('no-failing-input-found')]),
+            "failed_obligations":sorted(set(ded))[:12],"failed_bounded_checks":sorted(set(rt))[:12],"summary":summ[:1]}
+json.dump(out,open(p,'w'),indent=1)
+PY
